@@ -1,7 +1,8 @@
 """C07 — requests run in the client's current keyspace, protocol version and compression.
 
-Spec: Session.tla (USE as UseConnect / UseStore / UseReply, concurrent clients, the session table and its lock)
-model-checked by TLC for ForwardInClientKs, OnlyValidKs, FailedUseKeepsKs, Isolation.  Binding: seeded histories
+Spec: Session.tla (USE as the code's critical sections: look-up under the read lock, write lock, ConnectSession's
+Listen / per-host pool connect / close(connected) / select, store, reply; concurrent clients; explicit table lock)
+model-checked by TLC for ForwardInClientKs, OnlyValidKs, NoBrokenSession, FailedUseKeepsKs, Isolation, UseAnswered.  Binding: seeded histories
 of USE (valid, quoted, mixed-case, non-existent) and data requests over concurrent clients with different
 versions/compressions - including every client switching to the same new keyspace at the same instant, and a gated
 schedule of Session.tla's UseConnect in which every pool has failed before the creator of the session looks at the
@@ -69,6 +70,13 @@ def normalise(raw):
 def run(ctx):
     t = ctx.tier == "thorough"
     ctx.tlc_must_pass("SessionMC", "SessionMC_quick.cfg", timeout=1500, name="mc")
+    ctx.tlc_must_pass("SessionMC", "SessionMC_live.cfg", timeout=900, workers=4, name="mc-liveness")
+    # sensitivity: with the pinned tree's select (a ready `connected` may win over a pending failure) the model must
+    # exhibit the broken session that the gated schedule reproduces on the code
+    r = ctx.tlc("SessionMC", "SessionMC_pinned_select.cfg", timeout=600, workers=4, count=False, name="sensitivity-select")
+    ctx.notes["design_model_sensitivity"] = {"select_ignores_failure": r.violated}
+    if not r.violated:
+        raise core.Inconclusive("Session.tla lost its sensitivity to the ConnectSession select hazard")
     if t:
         ctx.tlc_must_pass("SessionMC", "SessionMC_thorough.cfg", timeout=3000, name="mc")
     raw = ctx.path("raw-session.ndjson")
